@@ -659,7 +659,7 @@ class Interp:
             if a[0] == 'ref' and a[2] and a[1][0][0] == 'local':
                 lv = a[1]
                 old = self._read_lv(st, lv)
-                self._write_lv(st, lv, ('havoc', site, old), fn, bb, frame)
+                self._write_lv(st, lv, ('havoc', site, old, name), fn, bb, frame)
         yield st, res
 
 
